@@ -114,6 +114,31 @@ def printf_then_print(self, a, b):
     else:
         c.ensures('one-space-between-successive-outputs-on-a-line', "out_is(%r.format(a), ' ', b)" % real)
 
+# ---- the same printf executed a second time (a loop, a routine called twice, the same statement again) prints as the first time
+c = contract(VI, 'printf_twice', serves=['C19', 'C17', 'C01'], name="lemma:printf '{v}:{}' executed twice", src='''
+def printf_twice(self, a, b):
+    from bardolph.vm.instruction import Instruction
+    from bardolph.vm.vm_codes import OpCode
+    inst = Instruction(OpCode.OUT, IoOp.PRINTF, '{v}:{}')
+    self._unnamed.append(a)
+    self.out(inst)
+    self._unnamed.append(b)
+    self.out(inst)
+''')
+def _setup(b, case):
+    from pyvc.values import Opaque
+    m = lib.machine(b, 'LOGICAL', lib.light_set_with(b, {}))
+    v = b.sym('int', 'var_v')
+    m.attrs['_call_stack'].attrs['_top'].attrs['vars'].d.update({'v': v})
+    calls = b.ghost('Calls', PyList())
+    out = Opaque('output', {'out': lambda I_, o, a, k: calls.items.append((o, 'out', tuple(a)))})
+    out.native = {'kind': 'generic'}
+    lib.provide(b, b.module('bardolph.lib.i_lib').ns['Output'], out)
+    return {'self': m.attrs['_vm_io'], 'a': b.sym('int', 'a'), 'b': b.sym('int', 'b'), '_v': v}
+c.setup(_setup)
+c.crosscheck = False
+c.ensures('both-times-as-str-format-would', "len(ghost('Calls')) == 2 and ghost('Calls')[0][2][0] == '{v}:{}'.format(a, v=_v) and ghost('Calls')[1][2][0] == '{v}:{}'.format(b, v=_v)")
+
 # ---- printf
 for fmt, nfields in (('{} and {}\\n', 2), ('{1}-{0} {hue:.1f} {v}', 2), ('no fields', 0), ('{:>6} {saturation} {w}', 1)):
   for vkind in ('int', 'str'):
@@ -186,10 +211,15 @@ for how in ('literal', 'macro'):
                 for table in (pr.attrs['_context'].attrs['_globals'], pr.attrs['_context'].attrs['_locals']):
                     b.I.ghost['symbols'][(id(table), repr('fmt_macro'))] = sym
             iop = b.new(('bardolph.parser.io_parser', 'IoParser'), pr)
+            b.ghost('nesting_at_last_phrase', None)
             return {'self': iop, '_p': pr}
         c.setup(_setup)
         c.ensures('accept-or-message', 'result is True or (falsy(result) and errs() > old(errs()))')
         c.ensures('no-message-when-accepted', 'result is True ==> errs() == old(errs())')
+        if npos == 0:       # nothing but the format (a literal, or a macro that holds one): nothing can be wrong with it
+            c.ensures('a-format-without-fields-is-accepted-as-it-is', 'result is True')
+        else:               # a rejection can only come from a value phrase: the format itself (literal or macro) is accepted
+            c.ensures('the-format-is-accepted-a-rejection-comes-from-a-value', "falsy(result) ==> ghost('nesting_at_last_phrase') is not None")
         c.ensures('one-value-per-positional-field-then-the-resolved-format',
                   "result is True ==> len(emitted(_p)) == %d and instr(emitted(_p)[-1], 'OUT', IoOp.PRINTF) and emitted(_p)[-1].param1 == %r and %s"
                   % (2 * npos + 1, fmt, ' and '.join(["is_seg(emitted(_p)[%d], 'value') and instr(emitted(_p)[%d], 'OUT', IoOp.REGISTER, Register.RESULT)" % (2 * i, 2 * i + 1)
